@@ -179,10 +179,17 @@ class Expander:
             for k in range(d):
                 if is_zero(th0 - self.X[k]):
                     ax = k
-            if ax is None or th.val < 0:
-                raise AnalysisError(f"argument of {key[1]} does not tend to a coordinate: {th}")
+            if th.val < 0:
+                raise AnalysisError(f"argument of {key[1]} is unbounded in the limit: {th}")
             rest = th - Series.const(th0)
-            S, C = Rat.atom(('S', AX[ax])), Rat.atom(('C', AX[ax]))
+            if ax is None:
+                # the argument tends to some other point than the expansion point (e.g. a position anchored at the opposite
+                # end of the axis): expand about that point with sine / cosine atoms of its own - they cannot cancel against
+                # the reference's S, C of the expansion point, so a metric factor taken at the wrong place shows as a mismatch
+                from ..arrays import opaque_fn
+                S, C = opaque_fn('sin', th0), opaque_fn('cos', th0)
+            else:
+                S, C = Rat.atom(('S', AX[ax])), Rat.atom(('C', AX[ax]))
             r2 = rest * rest
             r3 = r2 * rest
             if key[1] == 'sin':
